@@ -327,7 +327,7 @@ def offset_cases():
 
 
 def jobs(tier, seed):
-    n, shards = (4000, 8) if tier == "quick" else (56000, 16)
+    n, shards = (4000, 8) if tier == "quick" else (224000, 16)
     out = [{"name": "offsets", "kind": "offsets"}]
     out += [{"name": f"hyp-{i}", "kind": "hyp", "seed": seed * 1000 + i, "n": n // shards} for i in range(shards)]
     return out
